@@ -24,6 +24,21 @@ Streams:
      heralded gate, in-place edits that add loss elements, a rule added in place to the QuickSampler's
      PostSelection object; directed: an observation, a change of the loss count, an observation);
   3. Analyzer probes and histories.
+
+Correspondence layer (harness/c11corr.py, driver op "cache"): in streams 1 and 2 every long-lived Sampler /
+QuickSampler is ALSO run on the cache model.  At every observation the object's configuration is abstracted to
+the model's SamplerCfg / QuickCfg (public attributes only; values interned with the code's own equality), and
+whether the implementation really recomputed is observed through counting wrappers around
+`sampler.pdist_calc` / `Backend.probability` and the `probability_distribution` getters.  Per read:
+model.recomputed == implementation.recomputed, otherwise
+    corr:missed-recomputation (the model recomputes, the code did not: a field is missing from the code's
+                               `_gen_calculation_values`; the field is named), or
+    corr:over-invalidation    (the code recomputed although no model field changed).
+Several QuickSamplers sharing PostSelection objects are run on the world model (`CWorld.step`: new / set / mutate
+/ read), Samplers of stream 1 one by one.  Directed histories change exactly ONE snapshot field between two reads
+(every field of both snapshots), change nothing, or assign an equal value through a different object.  Self-test
+on every run: the pinned snapshots (code before the repairs of F10 / F30) must disagree with the implementation
+on the F10 and F30 witnesses.
 """
 
 from __future__ import annotations
@@ -34,12 +49,19 @@ import random as pyrandom
 import numpy as np
 
 import lightworks as lw
-from core import Ctx, ddmin, exc_class
+from c11corr import SEAMS, Abstractor, Tracker, WorldTracker, changed_fields, seams_selftest
+from core import Ctx, MachineryFault, ddmin, exc_class
 from lightworks import emulator
 
 TRUSTED = [
     "Lean 4.33 kernel; axioms subset of {propext, Classical.choice, Quot.sound} (audited on every run)",
-    "the cache model LW.Model.Cache abstracts U_full/source values to identifiers with decidable equality",
+    "the cache model LW.Model.Cache abstracts U_full/source values to identifiers with decidable equality; the harness "
+    "interns the values with the code's own equality (arrays: shape and element-wise ==, PostSelection objects: identity)",
+    "the implementation 'recomputed' iff sampler.pdist_calc / Backend.probability was entered or the "
+    "probability_distribution getter raised while the long-lived object was observed (counting wrappers installed by "
+    "the harness for the duration of the run; self-tested on every run)",
+    "`compute` of the model is abstract (the name of the configuration); that the distribution is a function of the "
+    "snapshot fields is what the long-lived-vs-fresh oracle searches counterexamples to",
     "numpy / stdlib PRNG determinism for equal seeds",
 ]
 ASSUMPTIONS = ["histories of 4-14 steps on circuits with <= 4 modes (<= 7 after in-place extension), <= 3 user photons",
@@ -183,6 +205,17 @@ def gen_history(ctx: Ctx, rng, kind: str) -> list:
             ctx.count("directed:same_modes_other_loss_count")
         steps.append(rng.choice(obs))
     for _ in range(rng.randint(4, ctx.n(10, 14))):
+        if rng.random() < 0.22:
+            # steps that change exactly one field of the snapshot, nothing at all, or assign an equal value through
+            # a different object (the cache must NOT be invalidated by the last two - the correspondence checks it)
+            common = [["param_same"], ["circuit_same"], ["circuit_copy"], ["input_same"]]
+            if kind == "sampler":
+                steps.append(rng.choice(common + [
+                    ["source_same"], ["backend_same"], ["detector", rng.choice(SH_DET)],
+                    ["source_one", rng.randrange(3), rng.choice([1, 0.9, 0.8])], ["source_thr", rng.choice([0, 1e-3, 0.2])]]))
+            else:
+                steps.append(rng.choice(common + [["ps_same_object"], ["ps_equal_new"], ["pnr_same"]]))
+            continue
         r = rng.random()
         if r < 0.22:
             steps.append(["circuit", rng.choice(names)])
@@ -249,11 +282,33 @@ def same_obs(a, b) -> bool:
     return x == y
 
 
-def run_history(ctx: Ctx, kind: str, steps: list) -> list[str]:
+OBS = ("read", "sample", "sample_N_outputs", "sample_N_inputs")
+NEW_OBJECT_SAME_VALUE = ("circuit_copy", "input_same", "source_same", "backend_same", "input", "source", "backend", "circuit")
+
+
+def run_history(ctx: Ctx, kind: str, steps: list, count: bool = False, snap: str | None = None,
+                corr: bool = True) -> list[str]:
+    """oracle (long-lived vs fresh) and correspondence (cache model vs implementation, per read) on one history"""
+    return run_history_tr(ctx, kind, steps, count, snap, corr)[0]
+
+
+def run_history_tr(ctx: Ctx, kind: str, steps: list, count: bool = False, snap: str | None = None,
+                   corr: bool = True) -> tuple[list[str], Tracker]:
+    tr = Tracker(kind)
+    probs = _run_history(ctx, kind, steps, tr, count)
+    if corr:
+        probs += tr.compare(ctx, snap)
+    if count:
+        for r in tr.reads:
+            ctx.count(f"corr:{kind}:read:" + ("raised" if r["raised"] else "recomputed" if r["recomputed"] else "stored"))
+    return probs, tr
+
+
+def _run_history(ctx: Ctx, kind: str, steps: list, tr: Tracker, count: bool) -> list[str]:
     probs: list[str] = []
     fam, p = circuits(None)
     cur = {"circuit": "plain", "input": [1, 0, 0], "source": [1, 1, 1], "backend": "permanent", "ps": None, "pnr": True,
-           "ps_extra": []}
+           "ps_extra": [], "thr": 0, "det": [1, 0, True]}
 
     def fresh_ps():
         ps = mk_ps(cur["ps"])
@@ -266,46 +321,87 @@ def run_history(ctx: Ctx, kind: str, steps: list) -> list[str]:
         if kind == "sampler":
             b, pu, ind = cur["source"]
             return emulator.Sampler(c, lw.State(cur["input"]),
-                                    source=emulator.Source(brightness=b, purity=pu, indistinguishability=ind),
-                                    backend=cur["backend"])
+                                    source=emulator.Source(brightness=b, purity=pu, indistinguishability=ind,
+                                                           probability_threshold=cur["thr"]),
+                                    detector=_mk_detector(cur["det"]), backend=cur["backend"])
         return emulator.QuickSampler(c, lw.State(cur["input"]), photon_counting=cur["pnr"], post_select=fresh_ps())
 
     try:
         obj = fresh()
     except Exception:  # noqa: BLE001
         return probs
+    prev = tr.snapshot(obj)
     for k, st in enumerate(steps):
         op = st[0]
         try:
             if op == "circuit":
                 obj.circuit = fam[st[1]]
                 cur["circuit"] = st[1]
+            elif op == "circuit_same":
+                obj.circuit = fam[cur["circuit"]]
+            elif op == "circuit_copy":
+                # an equal circuit through a different object (it keeps the shared Parameter)
+                new = cur["circuit"] + "'"
+                fam[new] = fam[cur["circuit"]].copy()
+                obj.circuit = fam[new]
+                cur["circuit"] = new
             elif op == "mutate_circuit":
                 c = fam[cur["circuit"]]
                 edit_circuit(c, st[1], st[2])
             elif op == "param":
                 p.set(st[1])
+            elif op == "param_same":
+                p.set(p.get())
             elif op == "input":
                 try:
                     obj.input_state = lw.State(st[1])
                     cur["input"] = st[1]
                 except Exception:  # noqa: BLE001  (rejected assignment: settings unchanged)
                     pass
+            elif op == "input_same":
+                obj.input_state = lw.State(list(cur["input"]))
             elif op == "source":
                 b, pu, ind = st[1]
                 if st[2]:
                     obj.source = emulator.Source(brightness=b, purity=pu, indistinguishability=ind)
+                    cur["thr"] = 0
                 else:
                     obj.source.brightness = b
                     obj.source.purity = pu
                     obj.source.indistinguishability = ind
                 cur["source"] = st[1]
+            elif op == "source_one":
+                if kind == "sampler":
+                    setattr(obj.source, ["brightness", "purity", "indistinguishability"][st[1]], st[2])
+                    cur["source"] = [st[2] if i == st[1] else x for i, x in enumerate(cur["source"])]
+            elif op == "source_thr":
+                if kind == "sampler":
+                    obj.source.probability_threshold = st[1]
+                    cur["thr"] = st[1]
+            elif op == "source_same":
+                if kind == "sampler":
+                    b, pu, ind = cur["source"]
+                    obj.source = emulator.Source(brightness=b, purity=pu, indistinguishability=ind,
+                                                 probability_threshold=cur["thr"])
+            elif op == "detector":
+                if kind == "sampler":
+                    obj.detector = _mk_detector(st[1])
+                    cur["det"] = st[1]
             elif op == "backend":
                 obj.backend = st[1]
                 cur["backend"] = st[1]
+            elif op == "backend_same":
+                if kind == "sampler":
+                    obj.backend = emulator.Backend(cur["backend"])
             elif op == "post_select":
                 obj.post_select = mk_ps(st[1])
                 cur["ps"], cur["ps_extra"] = st[1], []
+            elif op == "ps_same_object":
+                if kind == "quick":
+                    obj.post_select = obj.post_select
+            elif op == "ps_equal_new":
+                if kind == "quick":
+                    obj.post_select = fresh_ps()
             elif op == "ps_add":
                 if kind == "quick" and cur["ps"] is not None and st[1] not in [cur["ps"], *cur["ps_extra"]]:
                     try:
@@ -317,30 +413,107 @@ def run_history(ctx: Ctx, kind: str, steps: list) -> list[str]:
             elif op == "pnr":
                 obj.photon_counting = st[1]
                 cur["pnr"] = st[1]
+            elif op == "pnr_same":
+                if kind == "quick":
+                    obj.photon_counting = cur["pnr"]
             else:
                 if op == "read":
-                    a = observe(lambda: norm_dist(obj.probability_distribution))
-                    fo = observe(lambda: norm_dist(fresh().probability_distribution))
+                    def act(o):
+                        return norm_dist(o.probability_distribution)
                 elif op == "sample":
-                    def one(o):
+                    def act(o):
                         pyrandom.seed(st[1])
                         return tuple(o.sample().s)
-                    a = observe(lambda: one(obj))
-                    fo = observe(lambda: one(fresh()))
                 elif op == "sample_N_outputs":
-                    a = observe(lambda: sorted((tuple(s.s), n) for s, n in obj.sample_N_outputs(st[1], seed=st[2]).items()))
-                    fo = observe(lambda: sorted((tuple(s.s), n) for s, n in fresh().sample_N_outputs(st[1], seed=st[2]).items()))
+                    def act(o):
+                        return sorted((tuple(s.s), n) for s, n in o.sample_N_outputs(st[1], seed=st[2]).items())
                 else:
-                    a = observe(lambda: sorted((tuple(s.s), n) for s, n in obj.sample_N_inputs(st[1], seed=st[2]).items()))
-                    fo = observe(lambda: sorted((tuple(s.s), n) for s, n in fresh().sample_N_inputs(st[1], seed=st[2]).items()))
+                    def act(o):
+                        return sorted((tuple(s.s), n) for s, n in o.sample_N_inputs(st[1], seed=st[2]).items())
+                cfg = tr.snapshot(obj)
+                with SEAMS.window() as w:
+                    a = observe(lambda: act(obj))
+                tr.observed(k, obj, cfg, w)
+                try:
+                    fobj = fresh()
+                except Exception as e:  # noqa: BLE001
+                    # the current settings cannot even be given to a new object (e.g. the input does not fit the
+                    # circuit): the long-lived object must refuse too (its exception comes from the read)
+                    if a[0] == "raise":
+                        ctx.count(f"{kind}:both_refuse")
+                        continue
+                    fo = ("raise", exc_class(e))
+                else:
+                    fo = observe(lambda: act(fobj))
                 if not same_obs(a, fo):
                     probs.append(f"oracle: step #{k} {st}: long-lived {kind} gives {str(a)[:140]} but a fresh object with the "
                                  f"same settings ({cur}) gives {str(fo)[:140]}")
                     return probs
+                continue
+            # a reconfiguration step: which fields of the snapshot did it change?
+            now = tr.snapshot(obj) if count else None
+            if count and now is not None and prev is not None:
+                ch = changed_fields(now, prev)
+                ctx.count(f"corr:{kind}:change:" + ("+".join(ch) if ch else "none"))
+                if not ch:
+                    ctx.count(f"corr:{kind}:" + ("equal_value_new_object:" if op in NEW_OBJECT_SAME_VALUE else "nochange:") + op)
+            prev = now
         except Exception as e:  # noqa: BLE001
             probs.append(f"oracle: step #{k} {st} raised {exc_class(e)}: {str(e)[:80]}")
             return probs
     return probs
+
+
+def field_corpus(kind: str) -> list:
+    """directed histories: between two observations exactly ONE field of the snapshot changes (every field of the
+    snapshot of this kind in turn), then a step that changes nothing and one that assigns an equal value through a
+    different object, each followed by an observation"""
+    rd = ["read"]
+    same = [["param_same"], ["circuit_same"], ["input_same"], ["circuit_copy"]]
+    if kind == "sampler":
+        same += [["source_same"], ["backend_same"], ["detector", [0.9, 0, False]]]
+        changes = [
+            ("U_full", [], [["param", 0.5]]),
+            ("U_full(in place)", [], [["mutate_circuit", "ps", 0]]),
+            ("U_full(shape)", [], [["mutate_circuit", "loss", 1]]),
+            ("heralds", [["circuit", "idleherald0"]], [["circuit", "idleherald1"]]),
+            ("heralds[output]", [["circuit", "herald_out0"]], [["circuit", "herald_out2"]]),
+            ("heralds(moved)", [["circuit", "herald_out0"]], [["circuit", "herald_in0"]]),
+            ("n_modes+heralds(gate)", [], [["mutate_circuit", "gate", 0]]),
+            ("input_state", [], [["input", [1, 1, 0]]]),
+            ("backend", [], [["backend", "slos"]]),
+            ("source.brightness", [], [["source_one", 0, 0.8]]),
+            ("source.purity", [], [["source_one", 1, 0.9]]),
+            ("source.indistinguishability", [], [["source_one", 2, 0.7]]),
+            ("source.probability_threshold", [["source_one", 0, 0.8]], [["source_thr", 0.5]]),
+            ("source.probability_threshold(all removed)", [["input", [1, 1, 0]], ["source_one", 0, 0.8]], [["source_thr", 0.9]]),
+        ]
+    else:
+        same += [["ps_same_object"], ["pnr_same"]]
+        changes = [
+            ("U_full", [], [["param", 0.5]]),
+            ("U_full(in place)", [], [["mutate_circuit", "ps", 0]]),
+            ("U_full(shape)", [], [["mutate_circuit", "loss", 1]]),
+            ("heralds", [["circuit", "idleherald0"]], [["circuit", "idleherald1"]]),
+            ("heralds[output]", [["circuit", "herald_out0"]], [["circuit", "herald_out2"]]),
+            ("n_modes+heralds(gate)", [], [["mutate_circuit", "gate", 0]]),
+            ("input_state", [], [["input", [1, 1, 0]]]),
+            ("post_select(object)", [["post_select", [[0], [1]]]], [["ps_equal_new"]]),
+            ("post_select(object,none)", [], [["post_select", None]]),
+            ("post_select.rules", [["post_select", [[0], [1]]]], [["ps_add", [[2], [0]]]]),
+            ("post_select.rules(all removed)", [["post_select", [[0], [1]]]], [["ps_add", [[1], [3]]]]),
+            ("photon_counting", [["input", [1, 1, 0]]], [["pnr", False]]),
+        ]
+    out = []
+    for i, (label, pre, change) in enumerate(changes):
+        s1, s2 = same[i % len(same)], same[(i + 3) % len(same)]
+        obs2 = [["sample", 11], ["sample_N_outputs", 20, 12], rd][i % 3]
+        out.append((label, [["input", [1, 0, 0]], *pre, rd, *change, rd, s1, obs2, s2, rd, *change, ["sample", 5]]))
+    # the mode count changes while U_full and the heralds stay (the lossy circuit and the Unitary of its full matrix):
+    # the input no longer fits, the read raises and stores nothing; the old circuit comes back: nothing to recompute
+    out.append(("n_modes(read raises)", [["input", [1, 1, 0]], ["circuit", "lossy"], rd, ["circuit", "lossy_dil"], rd, rd,
+                                         ["circuit", "lossy"], rd, ["circuit", "lossy_dil"], ["input", [1, 1, 0, 0, 0]], rd, rd]))
+    return out
 
 
 def analyzer_probe(ctx: Ctx, rng) -> None:
@@ -472,7 +645,28 @@ def _set_detector(det, v) -> None:
     det.efficiency, det.p_dark, det.photon_counting = v
 
 
-def run_shared(ctx: Ctx, steps: list) -> list[str]:
+def run_shared(ctx: Ctx, steps: list, count: bool = False, corr: bool = True) -> list[str]:
+    """oracle and correspondence on one shared-components history: every Sampler on the cache model of its own,
+    all QuickSamplers together on the world model (they share PostSelection objects)"""
+    tk = {"s": {}, "w": WorldTracker()}
+    probs = _run_shared(ctx, steps, tk)
+    if corr:
+        cp = []
+        for name, tr in tk["s"].items():
+            cp += [q.replace("long-lived sampler", f"long-lived sampler {name}") for q in tr.compare(ctx)]
+        cp += tk["w"].compare(ctx)
+        probs += sorted(cp, key=lambda q: int(q.split("step #")[1].split(":")[0]))[:1]
+    if count:
+        for r in [r for tr in tk["s"].values() for r in tr.reads]:
+            ctx.count("corr:shared:sampler:read:" + ("raised" if r["raised"] else "recomputed" if r["recomputed"] else "stored"))
+        for r in tk["w"].reads:
+            ctx.count("corr:shared:quick:read:" + ("raised" if r["raised"] else "recomputed" if r["recomputed"] else "stored"))
+        for h in tk["w"].hist:
+            ctx.count(f"corr:shared:world:{h[0]}")
+    return probs
+
+
+def _run_shared(ctx: Ctx, steps: list, tk: dict) -> list[str]:
     fam, p = circuits(None)
     vals = json.loads(json.dumps(SH_INIT))
     comp = {"B0": emulator.Backend(vals["B0"]), "B1": emulator.Backend(vals["B1"]), "SRC0": _mk_source(vals["SRC0"]),
@@ -664,23 +858,35 @@ def run_shared(ctx: Ctx, steps: list) -> list[str]:
                 if what == "sample_N_inputs" and kind != "sampler":
                     what = "sample_N_outputs"
                 if what == "read":
-                    a = observe(lambda: norm_dist(obj.probability_distribution))
-                    fo = observe(lambda: norm_dist(fresh(o).probability_distribution))
+                    def act(x, shared_ps):
+                        return norm_dist(x.probability_distribution)
                 elif what == "sample":
-                    def one(x, seed=st[3]):
+                    def act(x, shared_ps, seed=st[3]):
                         pyrandom.seed(seed)
                         return tuple(x.sample().s)
-                    a, fo = observe(lambda: one(obj)), observe(lambda: one(fresh(o)))
                 else:
                     n, seed, rules = st[3], st[4], st[5]
 
-                    def many(x, shared_ps, what=what, n=n, seed=seed, rules=rules):
+                    def act(x, shared_ps, what=what, n=n, seed=seed, rules=rules):
                         kw = {}
                         if kind == "sampler" and rules is not None:
                             kw["post_select"] = ps_for(rules) if shared_ps else fresh_ps(rules)
                         f = x.sample_N_outputs if what == "sample_N_outputs" else x.sample_N_inputs
                         return sorted((tuple(t.s), m) for t, m in f(n, seed=seed, **kw).items())
-                    a, fo = observe(lambda: many(obj, True)), observe(lambda: many(fresh(o), False))
+                # the correspondence: abstract configuration now, and whether this observation recomputes
+                if kind == "sampler":
+                    tr = tk["s"].setdefault(st[1], Tracker("sampler"))
+                    cfg = tr.snapshot(obj)
+                else:
+                    quick = {nm: x["obj"] for nm, x in objs.items() if x["kind"] == "quick"}
+                    ready = tk["w"].prepare(quick)
+                with SEAMS.window() as w:
+                    a = observe(lambda: act(obj, True))
+                if kind == "sampler":
+                    tr.observed(k, obj, cfg, w)
+                elif ready:
+                    tk["w"].observed(k, st[1], quick, w)
+                fo = observe(lambda: act(fresh(o), False))
             if a[0] == "raise":
                 ctx.count("shared:obs_raised:" + str(a[1]))
             if not same_obs(a, fo):
@@ -853,73 +1059,188 @@ def gen_shared(ctx: Ctx, rng) -> list:
     return steps
 
 
+def _oracle(probs: list[str]) -> list[str]:
+    return [q for q in probs if q.startswith("oracle:")]
+
+
+def _corr_kind(q: str) -> str:
+    return q.split(":")[1] if q.startswith("corr:") else ""
+
+
+def _report_corr(ctx: Ctx, obj: str, steps: list, probs: list[str], rerun, max_tests: int = 200) -> None:
+    """a difference between model and implementation on whether a read recomputes: shrink the history on the same
+    kind of difference and register it (`probs` may also hold an oracle failure, which is reported by the caller)"""
+    probs = [q for q in probs if q.startswith("corr:")]
+    if not probs:
+        return
+    kind = _corr_kind(probs[0])
+    ctx.count(f"corr:found:{kind}")
+    n = ctx.extra.setdefault("corr_reported", 0)
+    if n >= 3:
+        return
+    ctx.extra["corr_reported"] = n + 1
+    small = ddmin(steps, lambda sub: any(_corr_kind(q) == kind for q in rerun(sub)), max_tests=max_tests)
+    sprobs = [q for q in rerun(small) if _corr_kind(q) == kind] or probs
+    ctx.count(f"corr:reported:{kind}")
+    print(f"CORR-DIFFERENCE property=C11 object={obj} history={json.dumps(small)}\n  {sprobs[0]}", flush=True)
+    ctx.disagreement(sprobs[0], {"object": obj, "history": small, "problems": sprobs})
+
+
 def shared_histories(ctx: Ctx, rng) -> None:
-    ctx.count("shared:oracle-only")  # (the cache model has no notion of a component shared between two caches)
+    ctx.count("shared:oracle+corr")  # (QuickSamplers on the world model, every Sampler on a cache model of its own)
     todo = [("corpus", h) for h in SHARED_CORPUS] + [("random", gen_shared(ctx, rng)) for _ in range(ctx.n(70, 1500))]
     reported = 0
     for tag, steps in todo:
         if ctx.out_of_time() or reported >= 3:
             break
-        probs = run_shared(ctx, steps)
+        probs = run_shared(ctx, steps, count=True)
         nobs = [k for k, st in enumerate(steps) if st[0] == "obs"]
         holders = {st[1] for st in steps if st[0] == "new"}
         ctx.count(f"shared:{tag}")
         for st in steps:
             ctx.count(f"shared:{st[0]}" + (f":{st[2]}" if st[0] in ("set", "obs", "mutate_own") else ""))
         ctx.case(json.dumps(["shared", steps]), len(nobs) >= 2 and len(holders) >= 2)
-        if probs:
+        if _oracle(probs):
             reported += 1
-            small = ddmin(steps, lambda sub: bool(run_shared(ctx, sub)), max_tests=200)
+            small = ddmin(steps, lambda sub: bool(_oracle(run_shared(ctx, sub, corr=False))), max_tests=200)
             sprobs = run_shared(ctx, small) or probs
+            sprobs = _oracle(sprobs) + [q for q in sprobs if not q.startswith("oracle:")]
             shape = "+".join(st[0] + (":" + str(st[2]) if st[0] in ("set", "mutate_own") else "") for st in small[:-1])[:90]
             ctx.violation(sprobs[0], {"object": "shared", "history": small, "problems": sprobs},
                           sig={"kind": "shared-" + shape, "object": "shared"})
+        _report_corr(ctx, "shared", steps, probs, lambda sub: run_shared(ctx, sub))
+
+
+# ------------------------------------------------------------------------------------------------
+# self-test of the correspondence (every run): the snapshots of the code BEFORE the repairs of F10 and F30 must
+# disagree with the implementation on the witnesses of these findings.  This shows that the per-read comparison can
+# see a field that is missing from a snapshot.  If the implementation itself lost the field again, the comparison
+# with the repaired model reports it (a corr: difference, found by the streams as well) and the pinned model agrees
+# with the code - that is a finding, not a fault of the machinery.
+
+F10_WITNESS = ("sampler", "sampler-pinned", [["input", [1, 0, 0]], ["circuit", "idleherald0"], ["read"], ["circuit", "idleherald1"], ["read"]])
+F30_WITNESS = ("quick", "quick-pinned", [["input", [1, 1, 0]], ["post_select", [[0], [1]]], ["read"], ["ps_add", [[2], [0]]], ["read"]])
+F30_SHARED_WITNESS = [["new", "Q1", "quick", "plain", [1, 1, 0], {"pnr": True, "ps": [[0], [1]]}],
+                      ["new", "Q2", "quick", "plain", [1, 1, 0], {"pnr": True, "ps": [[0], [1]]}], ["obs", "Q1", "read"],
+                      ["mutate_ps", [[0], [1]], [[2], [0]]], ["obs", "Q1", "read"], ["obs", "Q2", "read"]]
+
+
+def corr_selftest(ctx: Ctx) -> None:
+    seams_selftest()
+    # the model alone: the pinned snapshots return the value of ANOTHER configuration on the witnesses
+    c = {"ufull": 0, "nModes": 4, "inHer": [[3, 0]], "outHer": [[3, 0]], "input": [1, 0, 0], "backend": 0, "source": [0, 0, 0, 0]}
+    r = ctx.model.call({"op": "cache", "snap": "sampler-pinned", "fails": [],
+                        "history": [["cfg", c], ["read"], ["cfg", dict(c, inHer=[[3, 1]], outHer=[[3, 1]])], ["read"]]})
+    if [(x["recomputed"], x["value"], x["cfg"]) for x in r] != [(True, 0, 0), (False, 0, 1)]:
+        raise MachineryFault(f"C11 self-test: the pinned Sampler snapshot does not produce the stale read of F10: {r}")
+    for kind, snap, steps in (F10_WITNESS, F30_WITNESS):
+        probs, tr = run_history_tr(ctx, kind, steps)
+        if [(r["recomputed"], r["raised"]) for r in tr.reads] != [(True, False), (True, False)] or probs:
+            # the implementation itself does not recompute twice on the witness (or the oracle fails): a finding, reported
+            # like any other difference; the self-test of the comparison is inconclusive on this tree
+            ctx.count(f"corr:selftest:{snap}:inconclusive")
+            _report_corr(ctx, kind, steps, probs, lambda sub, kind=kind: run_history(ctx, kind, sub))
+            continue
+        pinned = tr.compare(ctx, snap)
+        ctx.count(f"corr:selftest:{snap}:" + ("disagrees" if pinned else "agrees"))
+        if not any(q.startswith("corr:over-invalidation") for q in pinned):
+            raise MachineryFault(f"C11 self-test: the implementation recomputes at both reads of the witness {steps} but the "
+                                 f"comparison with the {snap} model reports {pinned or 'nothing'}: the per-read comparison "
+                                 "cannot see a field that is missing from a snapshot")
+    tk = {"s": {}, "w": WorldTracker()}
+    probs = _run_shared(ctx, F30_SHARED_WITNESS, tk)
+    if [(r["recomputed"], r["raised"]) for r in tk["w"].reads] != [(True, False)] * 3 or probs:
+        ctx.count("corr:selftest:quick-world-pinned:inconclusive")
+        _report_corr(ctx, "shared", F30_SHARED_WITNESS, probs + tk["w"].compare(ctx), lambda sub: run_shared(ctx, sub))
+        return
+    pinned = tk["w"].compare(ctx, "quick-world-pinned")
+    ctx.count("corr:selftest:quick-world-pinned:" + ("disagrees" if pinned else "agrees"))
+    if not any(q.startswith("corr:over-invalidation") for q in pinned):
+        raise MachineryFault(f"C11 self-test: shared PostSelection witness: the comparison with the pinned world model reports "
+                             f"{pinned or 'nothing'}")
+
+
+def directed_fields(ctx: Ctx) -> None:
+    """every field of both snapshots changed alone between two observations, steps that change nothing, equal values
+    through different objects (oracle and correspondence)"""
+    reported = 0
+    for kind in ("sampler", "quick"):
+        for label, steps in field_corpus(kind):
+            probs = run_history(ctx, kind, steps, count=True)
+            ctx.count(f"corr:directed:{kind}:{label}")
+            ctx.case(json.dumps([kind, steps]), True)
+            if _oracle(probs) and reported < 3:
+                reported += 1
+                small = ddmin(steps, lambda sub, kind=kind: bool(_oracle(run_history(ctx, kind, sub, corr=False))), max_tests=200)
+                sprobs = run_history(ctx, kind, small) or probs
+                sprobs = _oracle(sprobs) + [q for q in sprobs if not q.startswith("oracle:")]
+                ctx.violation(sprobs[0], {"object": kind, "history": small, "problems": sprobs},
+                              sig={"kind": "directed-" + label, "object": kind})
+            _report_corr(ctx, kind, steps, probs, lambda sub, kind=kind: run_history(ctx, kind, sub))
 
 
 def run(ctx: Ctx) -> None:
     ctx.rule = ("random histories (4-14 steps) of circuit reassignment (incl. circuits with equal U_full but different "
                 "herald photons / mode split, equal modes but another number of loss elements), in-place circuit edits "
                 "(lossless, heralded gate, loss elements added), Parameter updates, input/source/backend/"
-                "post-selection/detector changes, reads and seeded sampling calls on a long-lived Sampler or "
-                "QuickSampler, each observation compared with a fresh object; histories in which several Samplers / "
+                "post-selection/detector changes, steps that change nothing or assign an equal value through a new "
+                "object, reads and seeded sampling calls on a long-lived Sampler or "
+                "QuickSampler, each observation compared with a fresh object AND (whether it recomputed) with the cache "
+                "model; histories in which several Samplers / "
                 "QuickSamplers / Analyzers share Backend / Source / Detector / PostSelection / circuit objects and are "
                 "reconfigured and observed in interleaved order; non-trivial = a read/sample follows a "
                 "reconfiguration that follows an earlier read, resp. >= 2 observations on >= 2 holders; distinct = "
                 "distinct history")
-    N = ctx.n(120, 2500)
+    SEAMS.install()
+    try:
+        _run(ctx)
+    finally:
+        SEAMS.remove()
+
+
+def _run(ctx: Ctx) -> None:
+    N = ctx.n(140, 2500)
     rng = ctx.rng
+    corr_selftest(ctx)
+    directed_fields(ctx)
     shared_histories(ctx, pyrandom.Random(f"C11-shared-{ctx.seed}"))
     for i in range(N):
         if ctx.out_of_time():
             break
         kind = "sampler" if rng.random() < 0.6 else "quick"
         steps = gen_history(ctx, rng, kind)
-        probs = run_history(ctx, kind, steps)
-        reads = [k for k, s in enumerate(steps) if s[0] in ("read", "sample", "sample_N_outputs", "sample_N_inputs")]
-        nontriv = len(reads) >= 2 and any(s[0] not in ("read", "sample", "sample_N_outputs", "sample_N_inputs")
-                                          for s in steps[reads[0]:reads[-1]])
+        probs = run_history(ctx, kind, steps, count=True)
+        reads = [k for k, s in enumerate(steps) if s[0] in OBS]
+        nontriv = len(reads) >= 2 and any(s[0] not in OBS for s in steps[reads[0]:reads[-1]])
         for s in steps:
             ctx.count(f"{kind}:{s[0]}")
         if steps and steps[0][0] in ("sample", "sample_N_outputs", "sample_N_inputs"):
             ctx.count("sampling_before_any_read")
         ctx.case(json.dumps([kind, steps]), nontriv, sample=[kind, steps] if i < 2 else None)
-        if probs:
-            small = ddmin(steps, lambda sub: bool(run_history(ctx, kind, sub)))
+        if _oracle(probs):
+            small = ddmin(steps, lambda sub: bool(_oracle(run_history(ctx, kind, sub, corr=False))))
             sprobs = run_history(ctx, kind, small) or probs
-            first = small[0][0] if small else ""
+            sprobs = _oracle(sprobs) + [q for q in sprobs if not q.startswith("oracle:")]
             kindsig = "no-prior-read" if len(small) == 1 else "stale-after-" + "+".join(sorted({s[0] for s in small[:-1]}))
             ctx.violation(sprobs[0], {"object": kind, "history": small, "problems": sprobs},
                           sig={"kind": kindsig, "object": kind})
+        _report_corr(ctx, kind, steps, probs, lambda sub, kind=kind: run_history(ctx, kind, sub), max_tests=400)
     analyzer_probe(ctx, rng)
     analyzer_histories(ctx, rng)
 
 
 def replay(ctx: Ctx, path: str) -> None:
     data = json.load(open(path))["replay"]
-    if data["object"] == "shared":
-        probs = run_shared(ctx, data["history"])
-    else:
-        probs = run_history(ctx, data["object"], data["history"])
+    if "object" not in data and "case" in data:  # (a correspondence-only report: the case is the history)
+        data = data["case"]
+    SEAMS.install()
+    try:
+        if data["object"] == "shared":
+            probs = run_shared(ctx, data["history"])
+        else:
+            probs = run_history(ctx, data["object"], data["history"])
+    finally:
+        SEAMS.remove()
     ctx.case("replay", True, sample=data)
     for p in probs:
         print("replay:", p)
